@@ -139,8 +139,10 @@ def glines(out):
     return "\n".join(l for l in out.split("\n") if l.startswith("G "))
 
 
-def classify(a, b):
+def classify(a, b, program=""):
     """classification key of a difference between two logs (None = unclassified).
+    `mess-finish-stale-dst-write`: the program uses the library's blocking MessageQueue::get<T>() (op mqgetraw) and the
+    two logs are equal up to pointer-sized garbage numbers (a clobbered stack variable of the receiver).
     `activities-cancel-order`: some actor died holding >= 2 unfinished asynchronous activities, and the global logs
     diverge at the very date of that death (its activities are cancelled in the order of ActorImpl::activities_, a
     std::set ordered by address, which decides the order in which the peers blocked on them are woken)."""
@@ -149,6 +151,8 @@ def classify(a, b):
     if d is None:
         return None
     _, x, y = d
+    if "mqgetraw" in program and re.sub(r"\d{9,}", "N", x) == re.sub(r"\d{9,}", "N", y):
+        return "mess-finish-stale-dst-write"
     clocks = set()
     for l in (x, y):
         f = l.split(" ")
